@@ -24,6 +24,10 @@ TIMES = 'history/times.py'; HFILES = 'history/files.py'; TNETS = 'server/tnetstr
 POLL = 'server/enip/poll.py'; DEFAULTS = 'server/enip/defaults.py'; NETWORK = 'server/network.py'
 
 VARIANTS = [
+    V( 'struct-index-not-scaled', AUTO, "beg = self.offset + self.index * siz", "beg			= self.offset + self.index", fires=[ 'T-TYPES' ] ),
+    V( 'struct-class-format-compiled', AUTO, "self._struct = struct.Struct( self.struct_format )", "self._struct		= struct.Struct( type( self ).struct_format )", fires=[ 'T-TYPES' ] ),
+    V( 'struct-unpack-at-offset', AUTO, "buf = data[ours+self._input][beg:end]\n val = self._struct.unpack_from( buffer=buf )[0]",
+       "buf			= data[ours+self._input]\n        val		        = self._struct.unpack_from( buf, beg )[0]", silent=[ 'T-TYPES' ] ),
     V( 'datasize-in-two-statements', PARSER, "return cls.TYPES_SUPPORTED[tag_type].struct_calcsize * size", "width			= cls.TYPES_SUPPORTED[tag_type].struct_calcsize\n        return size * width", silent=[ 'T-TYPES', 'F-FRAG' ] ),
     V( 'fromregex-cut-despite-live-wildcard', AUTO, "if states.get( nxt ) is None and states[pre].get( True ) is None:", "if states.get( nxt ) is None:", fires=[ 'X-FROMREGEX' ] ),
     V( 'fromregex-cut-test-reordered', AUTO, "if states.get( nxt ) is None and states[pre].get( True ) is None:", "if states[pre].get( True ) is None and states.get( nxt ) is None:", silent=[ 'X-FROMREGEX' ] ),
